@@ -60,7 +60,9 @@ NET_HEADER = ("Inter-|   Receive                                                
 NET_SPECIAL = ["lo", "eth0", "eth1", "enp0s31f6", "wlp2s0", "wlan0", "br-0123456789ab", "veth0a1b2c3", "docker0",
                "eth0.100", "bond0.4094", "eth0:1", "eth0:0", "a:b:c", "::", ":", "0", "1234", "123456789012345",
                "tun0", "wg0", "ifb0", "virbr0-nic", "vethd3adb33f", "enx00e04c680001", "ip6tnl0", "sit0", "lo:1",
-               "1:", ":1", "eth0.1:2", "x", "-", "_", "a.b-c_d:e", "vlan.4094:255", "p2p-wlan0-0", "9:9:9:9:9:9:9:9"]
+               "1:", ":1", "eth0.1:2", "x", "-", "_", "a.b-c_d:e", "vlan.4094:255", "p2p-wlan0-0", "9:9:9:9:9:9:9:9",
+               # characters of the table's own header lines (dev_valid_name() only refuses '/', ':' and white space)
+               "br|lan", "|", "face|x", "Inter-|", "bytes"]
 NET_ALPHA = "abcdefghijklmnopqrstuvwxyzABCXYZ0123456789" + ".-_:" * 4
 
 
